@@ -21,6 +21,7 @@ type Clause struct {
 }
 
 type LoopContract struct {
+	IterPost   []*Clause // must hold at the end of every iteration (names of the loop body in scope); checked, never assumed
 	OnSkip     []*Clause // must hold at the end of every iteration that wrote nothing (a `continue` path)
 	Invariants []*Clause
 	Decreases  *Clause   // first component (kept for reporting)
@@ -59,7 +60,7 @@ type Contract struct {
 var clauseKeywords = map[string]bool{
 	"func": true, "mode": true, "props": true, "trusted": true, "requires": true, "ensures": true,
 	"assigns": true, "nopanic": true, "pure": true, "loop": true, "invariant": true, "decreases": true,
-	"note": true, "funcfield": true, "iface": true, "global": true, "let": true, "oracle": true, "covers": true, "def": true, "callreq": true, "sendreq": true, "preserves": true, "retreq": true, "recvassume": true, "onskip": true,
+	"note": true, "funcfield": true, "iface": true, "global": true, "let": true, "oracle": true, "covers": true, "def": true, "callreq": true, "sendreq": true, "preserves": true, "retreq": true, "recvassume": true, "onskip": true, "iterpost": true,
 }
 
 // parseContractFile reads //@ lines. pkgPath is the import path of the
@@ -276,6 +277,15 @@ func parseContractLines(sc *bufio.Scanner, path, pkgPath string) ([]*Contract, e
 			}
 			curLoop = &LoopContract{}
 			cur.Loops[n] = curLoop
+		case "iterpost":
+			if curLoop == nil {
+				return nil, fmt.Errorf("%s:%d: iterpost outside loop", path, rc.line)
+			}
+			c, err := mk("iterpost", rc)
+			if err != nil {
+				return nil, err
+			}
+			curLoop.IterPost = append(curLoop.IterPost, c)
 		case "onskip":
 			if curLoop == nil {
 				return nil, fmt.Errorf("%s:%d: onskip outside loop", path, rc.line)
